@@ -48,6 +48,9 @@ def _numeric_width(dt):
     return None
 
 
+WRITTEN = set()      # (index, sub) written by the 'siblings' pre-state in the current path
+
+
 def classify(idx, sub):
     """independent lookup: returns ('missing-index',) | ('missing-sub',) | ('entry', dtype, access, default)
     (forks on symbolic idx/sub; consistent with the path condition)"""
@@ -91,12 +94,20 @@ def _expect_abort(res, codes, idx, sub, tag):
 
 
 def _pre(cli, rig, pre):
+    WRITTEN.clear()
+    if pre == "siblings":
+        WRITTEN.update({(0x2020, 1), (0x2030, 1)})
     if pre == "upload":
         r = cli.upload(0x2012, 0)
         sx.prove(not isinstance(r, Abort) and r is not None, "preceding upload failed", "C06/history/pre-upload")
     elif pre == "download":
         r = cli.download(0x2000, 0, list(b"0123456789"), "seg-size")
         sx.prove(r is None, "preceding download failed", "C06/history/pre-download")
+    elif pre == "siblings":
+        # successful writes to one member of each record/array: their siblings must behave as before
+        for idx in (0x2020, 0x2030):
+            r = cli.download(idx, 1, [0x34, 0x12], "exp-size")
+            sx.prove(r is None, "preceding member download failed", "C06/history/pre-siblings")
 
 
 def _post(cli, rig):
@@ -133,7 +144,7 @@ def refuse_read(scope, pre="none"):
         if acc == "wo":
             _expect_abort(res, (S301.ABORT_READ_WO,), idx, sub, tag + "/write-only")
             sx.reach("read-wo")
-        elif dv is None:
+        elif dv is None and not any(bool((idx == i) & (sub == s_)) for i, s_ in WRITTEN):
             _expect_abort(res, NO_VALUE_CODES, idx, sub, tag + "/no-value")
             sx.reach("read-no-value")
         else:
@@ -306,7 +317,7 @@ def client_abort(op, at):
 
 def jobs(tier):
     out = []
-    pres = ("none", "upload", "download")
+    pres = ("none", "upload", "download", "siblings")
     for pre in pres:
         for scope in ("var", "sub"):
             out.append(dict(func="refuse_read", params=dict(scope=scope, pre=pre), weight=20))
